@@ -88,6 +88,16 @@ pub fn exec(_label: &str, input: &str, out: &mut CaseOut) {
 }
 
 pub fn generate(ctx: &mut Ctx) {
+    // texts longer than 4 KiB / 8 KiB / 64 KiB whose look-ahead tokens fall on every alignment, spelled by the reference
+    // writer; timestamps in both passes of the repeated hour and in local-mean-time periods
+    for (i, v) in crate::c01::long_values().into_iter().enumerate() {
+        ctx.case("r:long", &format!("r {} {}", 5000 + i, vx::show(&v)));
+    }
+    for (i, dt) in gen::dst_edge_datetimes().into_iter().chain(gen::lmt_datetimes()).enumerate() {
+        let v = Value::List(vec![Value::DateTime(dt)]);
+        ctx.case("w:stamp", &format!("w {}", vx::show(&v)));
+        ctx.case("r:stamp", &format!("r {} {}", 6000 + i, vx::show(&v)));
+    }
     for v in crate::c01::named_cases() {
         ctx.case("w:named", &format!("w {}", vx::show(&v)));
         for k in 0..8 {
